@@ -3,6 +3,8 @@ import CV.Proofs.InvValue
 import CV.Proofs.InvValueErr
 import CV.Proofs.InvValueLoop
 import CV.Proofs.InvTasksThm
+import CV.Proofs.InvTasksOnce
+import CV.Proofs.InvTasksWait
 /-
 C04 - value layer.  `Val.set` is the function the machine calls for every non-None handler
 result (`setValue` in CV.Model.Core.Machine); these theorems say that whatever sequence of
@@ -327,13 +329,23 @@ holds at every step taken, like `ReachG` of C05).  Clauses that are REAL restric
          (`eventDone_once_witness`, the run of C05's `guard_witness`);
   (root) no step changes the root of a component whose task loop is active (the code does not migrate `_tasks` when a root
          component is registered under another one: its tasks are orphaned and re-processed by `tick()` of the old root).
-Clauses believed to be invariants of the model, not proved here (they need "event ids are in range" and facts of the wait
-protocol of C06): (gen) the event whose handler returned a generator exists; (own) a task whose user generator yields a
-`call`/`wait` is an ordinary task `(e, g, None)` of an existing event; (done) `_on_done` of a wait state runs on a started
-wait state whose flag is not yet set; (tickh) `_on_tick` runs on a started wait state.
+Clauses that are sanity conditions:
+  (tickh), (done, first half) `_on_tick` / `_on_done` of a wait state run on a STARTED wait state: PROVED from the wait-protocol
+         invariant of C06 for admissible sessions (`guard_core_suffices_partial`: `T46GuardCore` + `W6CInv` ⇒ `T46Guard`);
+  (done, second half) when `_on_done` finds the flag already set (a second `_done` event of the awaited event, possible for a
+         re-fired `Timer` event), the resumption task is still registered - i.e. `_on_done` does not run again after the
+         resumption (the code checks `timed_out` there, not `flag`; a stale run would re-register the consumed task, whose
+         later step raises KeyError in `removeHandler`).  Believed unreachable in guarded sessions (it needs a handler list
+         computed before the resumption, i.e. a `_dispatcher` suspended below the task loop, which (tick) excludes; or a stale
+         cache entry), NOT proved: it needs "handler lists held by frames / cache entries contain only installed handlers";
+  (gen)  the event whose handler returned a generator exists, (own) a task whose user generator yields a `call`/`wait` is an
+         ordinary task `(e, g, None)` of an existing event: invariants of sessions that start with empty queues, NOT proved
+         (they need "event ids in queues / timers / frames are in range" and "a task with a parent is never a user generator";
+         `values_wf` of this file is about the shape of Values, not about ids).  No counter-example exists for them in sessions
+         from an empty initial state; with an arbitrary initial queue they can fail trivially (a dangling id in `s0`).
 
-OPEN: the run-level statement `eventDone_once` ("between two passes of `_eventDone(e)` the event is dispatched again"), the
-ownership invariant for user generators and the upgrade of C06 `caller_completes_partial`: see the report. -/
+RUN LEVEL: `eventDone_once_partial` (passes ≤ dispatches, CV/Proofs/InvTasksOnce.lean).  OPEN: the ownership counts for user generators and
+the upgrade of C06 `caller_completes_partial`. -/
 
 /-- non-vacuity of the hypotheses -/
 example : T46Init {} := ⟨fun x => by cases x <;> rfl, rfl, fun e => by
@@ -347,6 +359,21 @@ example : T46Guard { st := {} } :=
 
 /-- guarded sessions are sessions; if the guard holds in every reachable configuration, every session is guarded -/
 theorem guarded_sessions_are_sessions (s0 : St) (c : Cfg) (h : T46Reach s0 c) : Reach s0 c := h.reach
+
+/-- **the guard without the wait-closure clauses** (admissible sessions of C06).  `T46GuardCore` has the two real restrictions
+    (tick), (root), the two range clauses (gen), (own) and the second half of (done); that the closures `_on_done` / `_on_tick`
+    run on started wait states follows from C06's `wait_inv`.  So every admissible session on which the core guard holds at
+    every step is a guarded session, and all `_partial` theorems of this section apply to it. -/
+theorem guard_core_suffices_partial (s0 : St) (hi : W6InitWait s0) (c : Cfg) (h : T46ReachC s0 c) : T46Reach s0 c :=
+  h.guarded hi
+
+/-- … configuration-wise -/
+theorem guard_of_core (n0 : Nat) (c : Cfg) (hc : T46GuardCore c) (hw : W6CInv n0 c) : T46Guard c := T46Guard.of_core hc hw
+
+example (s0 : St) : T46ReachC s0 (startOf (envChange s0 0 []) (.tick 0)) := T46ReachC.init 0 [] (.tick 0) trivial
+example : T46GuardCore { st := {} } :=
+  ⟨fun _ _ h => (by cases h), fun _ _ h => (by cases h), fun _ _ _ _ _ _ h => (by cases h),
+   fun _ _ _ _ h => (by cases h), fun _ _ _ _ _ h => (by cases h)⟩
 
 /-- **waiting_accounting** (PARTIAL: guarded sessions).  In every configuration, for every event:
     task weights + pending-wait weights + frame weights ≤ `waitingHandlers`; in particular the counter is never negative. -/
@@ -400,16 +427,12 @@ theorem success_after_last_step_partial (s0 : St) (h0 : T46Init s0) (c : Cfg) (h
   obtain ⟨_, _, _, _, _, hw⟩ := hp
   exact (t46_reach_inv h0 c hr).no_obligations e hw
 
-/-- **eventDone_once**, PARTIAL.  FULL STATEMENT: along any run, between two configurations in which the end-of-event step of
-    `e` goes through (`T46Pass`), a `.disp e` entry is logged (the event is dispatched again).  It is FALSE over `Reach`
-    (`eventDone_once_witness`).  PROVED here for guarded sessions: the two facts that exclude the two mechanisms of a second
-    pass - (1) after a pass no obligation of `e` exists, and a task frame of `e` in flight forces `waitingHandlers(e) ≥ 1`, so
-    no task step can reach `_eventDone(e)` with 0 unless a handler of `e` first registers a new generator (`hApply` in a
-    dispatch of `e`); (2) when the pass happens inside the task loop, no handler loop is suspended below the loop, so no
-    `_dispatcher(e)` will run its own `_eventDone(e)` afterwards.  MISSING for the full statement: the run-level induction
-    ("closed until dispatched again") over all arms, which needs per-arm lemmas "`waiting e` is untouched" and "no frame of
-    `e` is pushed"; the invariant `T46Inv` it would use is complete. -/
-theorem eventDone_once_partial (s0 : St) (h0 : T46Init s0) (c : Cfg) (hr : T46Reach s0 c) (e : Nat) (hp : T46Pass c e) :
+/-- **what a pass leaves behind** (PARTIAL: guarded sessions).  When the end-of-event step of `e` goes through: (1) no obligation of
+    `e` exists; (2) nothing but driver-level frames is below any task loop - no handler loop is suspended there, so no
+    `_dispatcher` will run its own `_eventDone` after a pass made from the task loop; (3) in every configuration of the session
+    a task frame of `e` in flight forces `waitingHandlers(e) ≥ 1`, so it is not a pass.  These are the local facts behind the
+    run-level theorem `eventDone_once_partial` below. -/
+theorem pass_leaves_nothing_partial (s0 : St) (h0 : T46Init s0) (c : Cfg) (hr : T46Reach s0 c) (e : Nat) (hp : T46Pass c e) :
     ((∀ x t, t ∈ (c.st.comp x).tasks → t.e ≠ e) ∧
      (∀ w, w < c.st.waits.length → (c.st.wait w).t46_pending = true → (c.st.wait w).taskEvent ≠ e)) ∧
     (∀ a x ts b, c.stack = a ++ Frame.taskLoop x ts :: b → ∀ f ∈ b, f.t46_noisy = false) ∧
@@ -424,6 +447,41 @@ theorem eventDone_once_partial (s0 : St) (h0 : T46Init s0) (c : Cfg) (hr : T46Re
   refine ⟨?_, h1⟩
   rintro ⟨_, _, _, _, _, hw⟩
   omega
+
+/-- **eventDone_once**, RUN LEVEL (PARTIAL only in that it is stated over guarded sessions: without `T46Guard` it is false, see
+    `eventDone_once_witness`; the clause needed is (tick): no handler / task re-enters the task loop).
+    `T46Trace s0 e c p`: `c` is a configuration of a guarded session from `s0` in which the end-of-event step of `e`
+    (`_eventDone(e)` entered with `waitingHandlers = 0`) has gone through `p` times so far.  Then, at every moment,
+
+        p  +  (dispatches of e in progress: `.hLoop/.hAfter/.hApply/.dispFin/.eventDone r e` frames on the stack)
+           ≤  number of `.disp e` entries logged since the start of the session.
+
+    Every pass is paid for by a dispatch of its own: for each dispatch of an event the end-of-event step happens at most once,
+    whether it is made by `_dispatcher` itself or later by the task of the last generator handler; and while a generator
+    handler of `e` is still pending (`waitingHandlers ≥ 1`) one dispatch is still unpaid.
+    (The form "between two passes a `.disp e` is logged" is the special case below for events dispatched once; for an event
+    object that is dispatched again while a handler of its previous dispatch is running - a re-fired `Timer` event and a
+    handler that flushes - the passes of the inner and the outer dispatch follow each other without a `.disp` in between, which
+    is why the statement counts.)  Hypothesis `(s0.ev e).waiting = 0`: the event is not half-handled when the session starts. -/
+theorem eventDone_once_partial (s0 : St) (h0 : T46Init s0) (e : Nat) (hw0 : (s0.ev e).waiting = 0) (c : Cfg) (p : Nat)
+    (ht : T46Trace s0 e c p) :
+    p + t46_ctx e c.stack + s0.log.count (Entry.disp e) ≤ c.st.log.count (Entry.disp e) ∧
+    (1 ≤ (c.st.ev e).waiting → p + 1 + s0.log.count (Entry.disp e) ≤ c.st.log.count (Entry.disp e)) :=
+  ⟨(t46_trace_once h0 e hw0 c p ht).k, (t46_trace_once h0 e hw0 c p ht).j⟩
+
+/-- … in particular: an event that has been dispatched (at most) once during the session has had its end-of-event step at most
+    once - `<name>_done`, `<name>_success`, the value notification and `_effectDone` happen at most once for it. -/
+theorem eventDone_at_most_once_partial (s0 : St) (h0 : T46Init s0) (e : Nat) (hw0 : (s0.ev e).waiting = 0) (c : Cfg) (p : Nat)
+    (ht : T46Trace s0 e c p)
+    (h1 : c.st.log.count (Entry.disp e) ≤ s0.log.count (Entry.disp e) + 1) : p ≤ 1 := by
+  have := (eventDone_once_partial s0 h0 e hw0 c p ht).1
+  omega
+
+/-- the counter of a trace counts exactly the configurations in which `T46Pass` holds; every guarded session has a trace -/
+theorem pass_counter_spec (c : Cfg) (e : Nat) : t46_passB c e = true ↔ T46Pass c e := t46_passB_iff c e
+theorem guarded_sessions_have_traces (s0 : St) (e : Nat) (c : Cfg) (h : T46Reach s0 c) : ∃ p, T46Trace s0 e c p := h.trace e
+
+example (s0 : St) : T46Trace s0 0 (startOf (envChange s0 0 []) (.tick 0)) 0 := T46Trace.init 0 [] (.tick 0)
 
 /-- the excluded case is real: on the run `cw2` of C05 (a handler of `foo` calls `stop()` while the manager is running but not
     executing; the inline ticks run the task loop inside the handler) the end-of-event step of event 0 goes through in
